@@ -601,6 +601,9 @@ pub struct ApiCase {
     pub recinit_fail_at: usize,
     pub setinit_fail_at: usize,
     pub slow_consumer: bool,
+    /// the data-set initialiser takes 2 ms per call (the reader thread may then have finished - after an initialisation
+    /// failure or an empty input - before the calling thread hands out the first data sets)
+    pub slow_setinit: bool,
     /// long input (many batches, large recycled vectors): consumer calls are not logged, only counted
     pub big: bool,
     /// bytes per read call of the source (0 = unlimited)
@@ -731,6 +734,7 @@ macro_rules! api_runner {
             };
             if c.api.ends_with("_init") {
                 let rfail = c.rinit_fail;
+                let slow_si = c.slow_setinit;
                 let (rf, sf) = (c.recinit_fail_at as i64, c.setinit_fail_at as i64);
                 let n1 = ninit.clone();
                 let n2 = ninit.clone();
@@ -756,6 +760,9 @@ macro_rules! api_runner {
                         }
                     },
                     move || {
+                        if slow_si {
+                            std::thread::sleep(std::time::Duration::from_millis(2));
+                        }
                         let k = n2.1.fetch_add(1, Ordering::SeqCst) + 1;
                         if k == sf {
                             Err(ESet)
@@ -1078,6 +1085,7 @@ pub fn cmd_api(suite: &Value, out: &str, seed: u64) {
             recinit_fail_at: if faults && api.ends_with("_init") && rng.chance(1, 4) { 1 + rng.below(6) } else { 0 },
             setinit_fail_at: if faults && api.ends_with("_init") && rng.chance(1, 5) { 1 + rng.below(5) } else { 0 },
             slow_consumer: rng.chance(1, 3),
+            slow_setinit: faults && rng.chance(1, 2),
             big: false,
             chunk: *rng.pick(&[0usize, 0, 0, 1, 7, 100]),
             iofail: 0,
@@ -1087,6 +1095,9 @@ pub fn cmd_api(suite: &Value, out: &str, seed: u64) {
             x,
         };
         let mut c = c;
+        if c.rinit_fail && rng.chance(2, 3) {
+            c.slow_setinit = true;
+        }
         if suite["focus"].as_str() == Some("recinit") {
             // single worker, per-record API, a record_data_init failure somewhere and an early stop somewhere:
             // which set fails is then determined by the set sizes (see TraceParObs)
